@@ -297,4 +297,68 @@ theorem positionAt_lipschitz_float32_uncond (κ : ℚ) (hκ : 0 ≤ κ) (path : 
   exact (position_lipschitz_float32_uncond κ hκ path lengths _ _ a b hlen hs hbd hfp ha hb ha1 hbf
     (FMO.le_trans _ _ _ ha0 h0) hm h1' hch).2
 
+/-! ## non-vacuity: the demo curve `(100,200) → (107,224) → (100,200)`, lengths `[0, 25, 50]`, kernel-evaluated -/
+
+section Examples
+open Rosu.C16
+
+/-- `seglen_bounded` on the demo segment: hypotheses hold, the booked length is `25`. -/
+example : (Pos.length Float (demoPE - demoPP)).isFinite = true ∧ 0 ≤ toRat32 (Pos.length Float (demoPE - demoPP)) ∧
+    toRat32 (Pos.length Float (demoPE - demoPP)) ≤ 67108864 :=
+  seglen_bounded demoPP demoPE (demo_finitePos _ (by simp [demoPath])) (demo_finitePos _ (by simp [demoPath]))
+    (demo_bounded _ (by simp [demoPath])) (demo_bounded _ (by simp [demoPath]))
+
+/-- `natural_total_finite_float` on the demo path (its natural lengths are `[0, 25, 50]`, `demo_natLens`). -/
+example : ∀ v ∈ natLens (0 : Float) demoPath, FX.Finite64 v :=
+  natural_total_finite_float demoPath demo_finitePos demo_bounded (by simp [demoPath])
+
+attribute [local instance] C16.trigStub32
+
+/-- **every hypothesis of `linear_curve_position_err_float32` holds on the demo control points** `(100,200) L, (107,224),
+(100,200)`, progress `0.2` — no finiteness of the lengths is checked any more. -/
+example : ∃ c b', Curve.new 10 GameMode.osu linCps none ({} : CurveBuffers Float32 Float) = .ok (c, b') ∧
+    ∃ (p : Pos Float32) (k : Nat) (p0 p1 : Pos Float32) (w : ℚ),
+      positionAt c.path c.lengths 0.2 = .ok p ∧
+      c.path[k]? = some p0 ∧ (c.path[k + 1]? = some p1 ∨ p1 = p0) ∧
+      (∃ cp ∈ linCps, cp.pos = p0) ∧ (∃ cp ∈ linCps, cp.pos = p1) ∧ 0 ≤ w ∧ w ≤ 1 ∧
+      |toRat32 p.x - (toRat32 p0.x + w * (toRat32 p1.x - toRat32 p0.x))| < 1 / 4 ∧
+      |toRat32 p.y - (toRat32 p0.y + w * (toRat32 p1.y - toRat32 p0.y))| < 1 / 4 := by
+  obtain ⟨c, b', h, hp, _⟩ := linCps_curve
+  refine ⟨c, b', h, ?_⟩
+  exact linear_curve_position_err_float32 10 GameMode.osu linCps {} b' c 0.2 linCps_allLinear (by simp [linCps])
+    linCps_bounded linCps_finite h (by rw [hp]; simp [demoPath]) (by decide +kernel)
+
+/-- **every hypothesis of `position_lipschitz_float32_uncond` holds on the demo curve for `d = 10`, `d' = 30`** (two
+different segments) — nothing about the brackets is checked. -/
+example : ∃ (p p' : Pos Float32),
+      interpolateVertices demoPath demoLens (idxOfDist demoLens 10) 10 = .ok p ∧
+      interpolateVertices demoPath demoLens (idxOfDist demoLens 30) 30 = .ok p' ∧
+      |toRat32 p.x - toRat32 p'.x| ≤ (30 - 10) * (1 + (2 : ℚ) ^ (-20 : Int)) + 2 * interpBound +
+        degSlack * (1 + (2 : ℚ) ^ (-20 : Int)) ∧
+      |toRat32 p.y - toRat32 p'.y| ≤ (30 - 10) * (1 + (2 : ℚ) ^ (-20 : Int)) + 2 * interpBound +
+        degSlack * (1 + (2 : ℚ) ^ (-20 : Int)) := by
+  have h := (position_lipschitz_float32_uncond ((2 : ℚ) ^ (-20 : Int)) (by positivity) demoPath demoLens 10 30 0 50 rfl
+    demo_sorted demo_bounded demo_finitePos rfl rfl (by decide +kernel) (by decide +kernel) (by decide +kernel)
+    (by decide +kernel) (by decide +kernel) demo_chordBooked).2
+  rw [toRat_10, toRat_30] at h
+  exact h
+
+/-- `positionAt_lipschitz_float32_uncond` on the demo curve, progress `0.2 <= 0.6`. -/
+example : ∃ (p p' : Pos Float32), positionAt demoPath demoLens 0.2 = .ok p ∧ positionAt demoPath demoLens 0.6 = .ok p' ∧
+    |toRat32 p.x - toRat32 p'.x| ≤
+      (toRat (progressToDist demoLens 0.6) - toRat (progressToDist demoLens 0.2)) * (1 + (2 : ℚ) ^ (-20 : Int)) +
+        2 * interpBound + degSlack * (1 + (2 : ℚ) ^ (-20 : Int)) ∧
+    |toRat32 p.y - toRat32 p'.y| ≤
+      (toRat (progressToDist demoLens 0.6) - toRat (progressToDist demoLens 0.2)) * (1 + (2 : ℚ) ^ (-20 : Int)) +
+        2 * interpBound + degSlack * (1 + (2 : ℚ) ^ (-20 : Int)) :=
+  (positionAt_lipschitz_float32_uncond ((2 : ℚ) ^ (-20 : Int)) (by positivity) demoPath demoLens 0.2 0.6 0 50
+    (by decide +kernel) rfl demo_sorted demo_bounded demo_finitePos rfl rfl (by decide +kernel) (by decide +kernel)
+    (by decide +kernel) demo_chordBooked).2.2.2
+
+/-- a DEGENERATE bracket on which the old hypothesis `hnd` fails but the unconditional theorem applies: lengths
+`[0, 25, 25, 50]` — the middle bracket has `|25 ⊖ 25| = 0 <= EPSILON`. -/
+example : Scalar.le (Scalar.abs ((25 : Float) - 25)) (Scalar.eps : Float) = true := by decide +kernel
+
+end Examples
+
 end Rosu.C19
